@@ -426,7 +426,10 @@ func (n *Node) Generate(ctx context.Context, ts time.Time) (blk *types.Block, bs
 // AddBlock delivers a block from the network (validator path).
 func (n *Node) AddBlock(b *types.Block, peer types.PeerID) (err error) {
 	cp := CloneBlock(b)
-	n.Do(func() { err = n.CS.VerifAddBlock(cp, nil, peer) })
+	n.Do(func() {
+		defer n.CS.VerifQuiesce()
+		err = n.CS.VerifAddBlock(cp, nil, peer)
+	})
 	return
 }
 
